@@ -5,20 +5,7 @@ V = os.path.dirname(os.path.dirname(os.path.abspath(__file__)))
 props = [json.loads(l) for l in open(os.path.join(V, "properties.jsonl"))]
 ids = [p["id"] for p in props]
 
-CLAIMS = {
- "C16": dict(
-  text=("Lean 4 theorems about Impl.Integer / Impl.Real (hand models mirroring skeletons/INTEGER.c, REAL.c function by function): "
-        "asn_imax2INTEGER/asn_umax2INTEGER store the non-empty minimal two's-complement octets of v for every 64-bit v; "
-        "asn_INTEGER2imax returns the denoted value iff it fits and ERANGE otherwise for octet strings of any length; round trips; "
-        "guarded theorems + counter-example theorems for the known defects F2/F3. The model is tied to the C code on every run by a "
-        "differential run of prim_driver (real functions, ASan+UBSan) against the compiled Lean driver on boundary-exhaustive + random operations, "
-        "and the property predicate (minimal form, round trip, range error iff out of range, parsers accept exactly in-range numerals) "
-        "is evaluated on C's own outputs."),
-  note=("Trusted: Lean kernel; axioms propext/Quot.sound/Classical.choice; Spec.Twos as reading of X.690 8.3; the hand-written Impl model "
-        "(related to C only on the generated operations); harness/prim_driver + python orchestrator; gcc+sanitizers. LP64 only."),
-  technique="Lean 4 proof (induction/omega) over a hand model + differential correspondence with the C functions",
-  design="DESIGN.md §9 C16"),
-}
+CLAIMS = {f[:-5]: json.load(open(os.path.join(V, "claims", f))) for f in sorted(os.listdir(os.path.join(V, "claims"))) if f.endswith(".json")}
 NA_REASON = "check not built yet in this round (planned, see DESIGN.md §10); nothing is claimed"
 
 checks = []
